@@ -396,7 +396,7 @@ def run(ck):
             progs.append(p)
             origin.append("exhaustive")
             nexh += 1
-    for _ in range(ck.n(60, 1200)):
+    for _ in range(ck.n(60, 300)):
         progs.append(random_family(rng))
         origin.append("random")
     nrandom = len(progs) - ncorpus - nexh
@@ -618,7 +618,7 @@ def replay(ck, path):
         return 0
     prog, l = rep["program"], rep["limit"]
     bad = False
-    for st in STORES:
+    for st in stores_for(prog, l):      # hash-keyed stores only where the run stays off F8
         for det in (False, True):
             o = ck.run_go("c17", [go_case(prog, st, det, l)])[0]
             if "out" not in o or o["out"]["stage"] != "ok":
